@@ -53,6 +53,9 @@ def evidence(c):
               'thread by thread alone; plus one solo pass per plan in which the library\'s .data/.bss are compared around every call (S), and one more '
               'solo pass per plan in which the library\'s per-thread state (its thread-local block, values under keys it created) is renewed before '
               'every call and every call must give what it gave in the plain solo pass (H: nothing carried from call to call inside a thread). '
+              'A fifth of the plans are adjacent-data plans (two tasks whose first buffers share a machine word); for those, one more schedule '
+              'per recorded conflict point (an event at which a call touches a word shared with the neighbour) is executed, the other task run '
+              'to its end exactly there. '
               'distinct_nontrivial = number of distinct schedule fingerprints (hash of plan and of the sequence of context switches in '
               'task-relative coordinates, event index bucketed by 16) among executions in which at least one context switch landed strictly '
               'inside a library call; counted as the union over all workers'),
